@@ -53,6 +53,7 @@ type RPlan struct {
 	Rcpt map[string]string `json:"rcpt"`
 	Data map[string]string `json:"data"`
 	St   map[string]string `json:"st"`
+	Drop *int              `json:"drop"` // LMTP: answers sent before the connection breaks (absent or >= 3: no break)
 }
 
 type RTxn struct {
@@ -113,6 +114,13 @@ func (stubResolver) LookupIPAddr(ctx context.Context, host string) ([]net.IPAddr
 	return []net.IPAddr{{IP: net.IPv4(127, 0, 0, 1)}}, nil
 }
 
+func dropOf(p RPlan) int {
+	if p.Drop == nil {
+		return 3
+	}
+	return *p.Drop
+}
+
 func replyFor(res string, tempCode, permCode int) scripted.SMTPReply {
 	switch res {
 	case "temp":
@@ -129,6 +137,9 @@ func replyFor(res string, tempCode, permCode int) scripted.SMTPReply {
 func scriptFor(kind string, p RPlan, d string) *scripted.SMTPTxn {
 	t := &scripted.SMTPTxn{RcptFor: map[string]scripted.SMTPReply{}, LMTPDotFor: map[string]scripted.SMTPReply{}}
 	t.Mail = replyFor(p.Mail[d], 451, 550)
+	if kind == "lmtp" && p.Drop != nil && *p.Drop < 3 {
+		t.LMTPDrop = *p.Drop + 1
+	}
 	switch p.Data[d] {
 	case "temp":
 		t.Data = scripted.SMTPReply{Code: 451}
@@ -284,7 +295,7 @@ func runRcptBehaviour(t *testing.T, b RBehaviour, out *bufio.Writer) {
 		meta := &module.MsgMetadata{ID: fmt.Sprintf("b%dt%d", b.ID, i+1), OriginalFrom: from,
 			SMTPOpts: smtp.MailOptions{UTF8: utf8}}
 		tr.Emit("Txn", vtrace.Ev{"n": i + 1, "rcpts": tx.Rcpts, "plan": map[string]interface{}{
-			"mail": tx.Plan.Mail, "rcpt": tx.Plan.Rcpt, "data": tx.Plan.Data, "st": tx.Plan.St}})
+			"mail": tx.Plan.Mail, "rcpt": tx.Plan.Rcpt, "data": tx.Plan.Data, "st": tx.Plan.St, "drop": dropOf(tx.Plan)}})
 		d, err := tgt.Start(ctx, meta, from)
 		if b.Cfg.Kind == "lmtp" {
 			tr.Emit("Ret", vtrace.Ev{"op": "start", "r": "", "res": class(err), "err": errText(err)})
